@@ -6,8 +6,8 @@ For each: (1) demo passes on the clean tree, (2) patch applies, tree builds, exi
 """
 import json, os, re, shutil, subprocess, sys
 ENV = dict(os.environ, GOFLAGS="-mod=mod", GOPROXY="off", GOSUMDB="off", GOTOOLCHAIN="local")
-WT = "/tmp/seed/CONF"
-OUT = "/tmp/seed/out"
+WT = os.environ.get("SEED_WT", "/tmp/seed/CONF")
+OUT = os.environ.get("SEED_OUT", "/tmp/seed/out")
 PKGDIR = {"evaluator": "evaluator", "parser": "parser", "di": "di", "object": "object", "props": "props", "runscript": "runscript",
           "builtin": "props/modules/http/builtin", "simplexer": "third_party/simplexer", "main": "."}
 
@@ -85,7 +85,11 @@ def main():
             dst = os.path.join("/verif/seeded", sid)
             os.makedirs(dst, exist_ok=True)
             for f in os.listdir(d):
-                if f != "meta.json":
+                if f == "meta.json":
+                    continue
+                if os.path.isdir(os.path.join(d, f)):
+                    shutil.copytree(os.path.join(d, f), os.path.join(dst, f), dirs_exist_ok=True)
+                else:
                     shutil.copyfile(os.path.join(d, f), os.path.join(dst, f))
             meta = json.load(open(os.path.join(d, "meta.json")))
             meta["breaks_property"] = sid.split("-")[0]
